@@ -216,7 +216,12 @@ def csv_roundtrip(mapping):
 
 
 def gen_filename(rng):
-    seq = tuple(rng.choice([0x1F600, 0x1F3FB, 0x200D, 0xFE0F, 0x2198, 0x23, 0xA9, 0x1F468, 0x1F469, 0x42, 0x10FFFF, 0xABCDE]) for _ in range(rng.randint(1, 8)))
+    # (code points whose hex spelling starts with each hex letter, in particular with the
+    # letters that also occur in the "emoji_u" prefix)
+    seq = tuple(
+        rng.choice([0x1F600, 0x1F3FB, 0x200D, 0xFE0F, 0x2198, 0x23, 0xA9, 0x1F468, 0x1F469, 0x42, 0x10FFFF, 0xABCDE, 0xE000, 0xE9, 0xE50A, 0xEFFFF, 0xEE, 0xE0041, 0xD7FF, 0xC5, 0xB6, 0xF8FF])
+        for _ in range(rng.randint(1, 8))
+    )
     style = rng.choice(["noto", "plain-", "plain_"])
     hexes = [("%04x" if rng.random() < 0.7 else "%x") % c for c in seq]
     if rng.random() < 0.3:
